@@ -39,6 +39,8 @@ def run(ctx):
     from .common_url import rule_safe_urlsplit, rule_special_hosts
     rule_safe_urlsplit(ctx, "R4")
     rule_special_hosts(ctx, "R4")
+    from .common_url import rule_punycode
+    rule_punycode(ctx, "R4i")
     from .c20 import protocol_language
     protocol_language(ctx, "R4p")
 
@@ -187,6 +189,16 @@ def _shortener_cells(repo, thorough=False):
         if not under_known("x" + d, yt):
             probe("youtube", "is_youtube_url", "https://x%s/" % d, False)
     probe("youtube", "is_youtube_url", "https://example.org/?u=youtube.com", False)
+    # scheme-less strings without any slash: the host still ends at '?', '#', ':' and starts after '@'
+    for u, want in (("youtube.com?feature=share", True), ("youtu.be:443", True), ("user@youtube.com", True), ("youtube.com#t=1", True), ("evil.fr?next=www.youtube.com", False), ("evil.fr#www.youtube.com", False),
+                    ("www.youtube.com@evil.fr", False), ("youtube.com", True), ("evil.fr", False)):
+        probe("youtube", "is_youtube_url", u, want)
+    # a label that merely looks like punycode is not the label it would decode to with a laxer codec
+    lookalike = short[0].split(".")
+    probe("is_shortened_url", "is_shortened_url", "http://xn--%s-.%s/AbC12" % (lookalike[0], ".".join(lookalike[1:])), False)
+    probe("should_resolve", "should_resolve", "http://xn--%s-.%s/AbC12" % (lookalike[0], ".".join(lookalike[1:])), False)
+    probe("youtube", "is_youtube_url", "https://xn--youtube-.com/", False)
+    probe("youtube", "is_youtube_url", "https://XN--YOUTUBE-.com/", False)
     return out
 
 
